@@ -240,6 +240,48 @@ def _deep_text(ex, v, depth=0):
     return str(to_term(v)) if v is not None else ""
 
 
+def _read_task_shutdown_watch(core):
+    """read_task leaves its loop early with Ok(()) only when the shutdown-report channel itself is closed (nobody is left to report to). Watching any other channel -
+    e.g. the queue towards the send task, which the send task closes first thing on a send failure - would make the read task report a clean Ok(()) ahead of the send
+    task's error, and every caller would get the 'cause unknown' placeholder"""
+    from .. import listmodels as LM, seqmodels as SQ
+    b = R.find_body(core, r"^fn read_task::\{closure#0\}\(_1: Pin<&mut \{async fn body of read_task<")
+    okb = z3.Bool("handle_backend.ok")
+
+    def m_hbm(ex, st, callee, args, dty, site):
+        lst = LM.new_list(ex, [Opaque(z3.Const("followup0", OBJ))], name="messages")
+        return Fork([(okb, lambda ex_, st_, tr: ex_.mk_variant("Result", 0, "Ok", lst)),
+                     (z3.Not(okb), lambda ex_, st_, tr: ex_.mk_variant("Result", 1, "Err", Opaque(z3.Const("read_error", OBJ))))])
+    ex, ctx, paths = P.explore(core, b, extra_models=[(r"^handle_backend_messages::<", m_hbm)] + LM.LIST_MODELS + list(SQ.TRY_MODELS) + list(M.TRACING_MODELS), max_paths=6000, max_visits=3)
+    bad = [(p.kind, p.detail) for p in paths if p.kind in ("unsupported", "limit")]
+    viol, reach = [], []
+    report = r"mpsc::Sender::<Result<\(\), (\w+::)*Error>>::"
+    for p in paths:
+        evs = [e for e in p.events if e.kind == "call"]
+        watched = [e for e in evs if re.search(r"mpsc::Sender::<.*>::closed$", e.callee)]
+        polled = [e for e in evs if re.search(r"as (futures_util::)?Stream(Ext)?>::(poll_)?next|MaybePendingFutures::<.*>::(poll_)?next", e.callee)]
+        if not watched and not polled:
+            continue
+        pc = p.cond()
+        reach.append(pc)
+        sends = [e for e in evs if re.search(report + r"send$", e.callee)]
+        ok = bool(watched) and all(re.search(report + r"closed$", e.callee) for e in watched)
+        if ok and sends:
+            # the channel watched is the one the outcome is reported on
+            root = lambda t: re.sub(r"\s+", " ", str(to_term(t)))[:40]
+            ok = all(root(w.args[0]) == root(sends[-1].args[0]) for w in watched)
+        if not ok:
+            viol.append(pc)
+    reach_l = R.live_reach(viol, reach, bad)
+    nm = "prov:read_task:shutdown-watch"
+    if bad or not reach_l[0]:
+        return R.Result(engine="mirsym", name=nm, kind="provenance", status="unsupported" if bad else "vacuous", detail=str(bad[:1])[:300], bodies=[b.name])
+    return R.decide(nm, "provenance", z3.Or(*viol) if viol else z3.BoolVal(False), [z3.Or(*reach_l[0])], bodies=[b.name],
+                    desc="the only channel whose closing makes read_task stop with a clean Ok(()) is the shutdown-report channel it reports its own outcome on - not the queue to the send "
+                         "task, which that task closes before it reports a send failure", bounds="every path of the read_task coroutine up to three loop iterations",
+                    keydetail="shutdown-watch", replay=dict(scenario="c09_send_fails_on_unsubscribe", vars={}, fixed={}, region=z3.BoolVal(True)))
+
+
 def obligations(tier, seed):
     core = R.bodies("core")
     out = []
@@ -293,6 +335,7 @@ def obligations(tier, seed):
                                  "gets the cause - never the 'cause unknown' placeholder - once it was recorded", bounds="cause recorded / not recorded", keydetail="cause-consumed",
                             replay=dict(scenario="c09_cause_for_everyone", vars={}, fixed={}, region=z3.BoolVal(True))))
     # "no call, batch or subscribe future stays pending longer than the request timeout ... for any bytes the server may send": whatever a subscribe is answered with -
+    out.append(_read_task_shutdown_watch(core))
     # also a subscription id already in use - its caller's channel is completed (shared with C03: the routing step)
     from . import C03 as _c03
     for r in _c03.route_obligations(core, [("pending_sub", "active_sub")]):
